@@ -598,6 +598,9 @@ package core
 //@ ensures ncalls(unmarshalSSZVersionedValidatorIdx) == 1
 //@ ensures firstOK ==> result == nil && ncalls(unmarshalSSZVersioned) == 0
 //@ ensures result == nil && !firstOK ==> ncalls(unmarshalSSZVersioned) == 1
+// Whatever made the current layout fail, the legacy layout gets its turn (F-C14d: an offset-like slot value made
+// the first attempt fail late and the input was rejected without the fallback).
+//@ ensures !firstOK ==> ncalls(unmarshalSSZVersioned) == 1
 
 // ---- C09 / C10: signing epoch per signed type (consensus spec: which epoch selects the fork of the domain) ----
 //@ pure VersionedSignedProposal.Slot VersionedSignedAggregateAndProof.Slot eth2spec.VersionedAttestation.Data
